@@ -9,7 +9,8 @@ the concrete replays use the untouched module):
   np  -> NPProxy     forwards everything to numpy except: array/zeros/empty with dtype float64 holding
                      symbolic values become object arrays; linalg.norm / det / solve are computed exactly
                      (norm through the engine's square-root variables, det/solve for 2x2 by Cramer);
-                     linspace keeps exact rationals.
+                     linspace keeps exact rationals; isclose / allclose follow numpy's documented
+                     definition |a - b| <= atol + rtol*|b| element by element.
 """
 from __future__ import annotations
 
@@ -154,6 +155,25 @@ class NPProxy:
         if isinstance(x, (list, tuple)) and _has_sv(x):
             x = self._np.array(x, dtype=object)
         return self._np.abs(x)
+
+    def isclose(self, a, b, rtol=1e-05, atol=1e-08, **kw):
+        """numpy's documented definition, element by element: |a - b| <= atol + rtol * |b|"""
+        if not (_has_sv(a) or _has_sv(b)):
+            return self._np.isclose(a, b, rtol=rtol, atol=atol, **kw)
+        aa, bb = self._np.asarray(a, dtype=object), self._np.asarray(b, dtype=object)
+        aa, bb = self._np.broadcast_arrays(aa, bb)
+        out = self._np.empty(aa.shape, dtype=bool)
+        for idx in self._np.ndindex(aa.shape):
+            x, y = aa[idx], bb[idx]
+            if x is y:
+                out[idx] = True
+                continue
+            d = x - y
+            out[idx] = bool(abs(d) <= Fraction(atol) + Fraction(rtol) * abs(y))
+        return out if out.shape else bool(out)
+
+    def allclose(self, a, b, rtol=1e-05, atol=1e-08, **kw):
+        return bool(self._np.all(self.isclose(a, b, rtol=rtol, atol=atol, **kw)))
 
     def min(self, x, *a, **k):
         if _has_sv(x):
